@@ -15,17 +15,23 @@ EXTENDS Naturals, Sequences, FiniteSets, TLC, Json, IOUtils
 
 CONSTANTS KnownDeviations
 
-Shapes == {"read", "read+sel", "read+elem", "reply", "full", "partial", "partial+sel", "delete+sel", "delete+elem"}
-HasPartial(s) == s \in {"read+sel", "read+elem", "partial", "partial+sel"}
-HasDelete(s)  == s \in {"delete+sel", "delete+elem"}
-HasSel(s)     == s \in {"read+sel", "partial+sel", "delete+sel"}
-HasElem(s)    == s \in {"read+elem", "delete+elem"}
+Shapes == {"read", "read+sel", "read+elem", "reply", "full", "partial", "partial+sel", "delete+sel", "delete+elem",
+           \* combinations of a delete filter with a partial selector (what FeatureLocal.UpdateData passes on)
+           "delete+selelem", "delete+sel&partial+sel", "delete+elem&partial+sel", "delete+selelem&partial+sel"}
+HasPartial(s) == s \in {"read+sel", "read+elem", "partial", "partial+sel", "delete+sel&partial+sel", "delete+elem&partial+sel", "delete+selelem&partial+sel"}
+HasDelete(s)  == s \in {"delete+sel", "delete+elem", "delete+selelem", "delete+sel&partial+sel", "delete+elem&partial+sel", "delete+selelem&partial+sel"}
+\* per filter: 1 = carries exactly the given selector / elements, 0 = carries none
+PSel(s)  == IF s \in {"read+sel", "partial+sel", "delete+sel&partial+sel", "delete+elem&partial+sel", "delete+selelem&partial+sel"} THEN 1 ELSE 0
+PElem(s) == IF s = "read+elem" THEN 1 ELSE 0
+DSel(s)  == IF s \in {"delete+sel", "delete+selelem", "delete+sel&partial+sel", "delete+selelem&partial+sel"} THEN 1 ELSE 0
+DElem(s) == IF s \in {"delete+elem", "delete+selelem", "delete+elem&partial+sel", "delete+selelem&partial+sel"} THEN 1 ELSE 0
 
 \* what must be recognised for function f built in shape s
 Expected(f, s) == [fn |-> f, payload |-> TRUE, partial |-> HasPartial(s), delete |-> HasDelete(s),
-                   sel |-> HasSel(s), elem |-> HasElem(s), filterfn |-> HasSel(s) \/ HasElem(s)]
+                   psel |-> PSel(s), pelem |-> PElem(s), dsel |-> DSel(s), delem |-> DElem(s),
+                   filterfn |-> PSel(s) + PElem(s) + DSel(s) + DElem(s) > 0]
 Recognised(e) == [fn |-> e.rfn, payload |-> e.payload, partial |-> e.partial, delete |-> e.delete,
-                  sel |-> e.sel, elem |-> e.elem, filterfn |-> e.filterfn]
+                  psel |-> e.psel, pelem |-> e.pelem, dsel |-> e.dsel, delem |-> e.delem, filterfn |-> e.filterfn]
 
 TraceFile == IF "VERIF_TRACE" \in DOMAIN IOEnv THEN IOEnv.VERIF_TRACE ELSE "trace.ndjson"
 Trace == ndJsonDeserialize(TraceFile)
